@@ -22,7 +22,11 @@ const (
 	nOpKinds
 )
 
-var opNames = [...]string{"sendManaged", "sendExplicit", "deliverFinal", "deliverPage", "deliverUnknown", "close"}
+// opAwaitFinal (concurrent monitor only): the SENDER reads InFlightRequest.Incoming() until the channel is closed,
+// i.e. it observes on the caller side that the final response of its request has arrived.
+const opAwaitFinal opKind = nOpKinds
+
+var opNames = [...]string{"sendManaged", "sendExplicit", "deliverFinal", "deliverPage", "deliverUnknown", "close", "awaitFinal"}
 
 func (k opKind) String() string { return opNames[k] }
 
@@ -45,8 +49,14 @@ func (o op) String() string {
 }
 
 // "final response" is any response frame that is not a non-final continuous-paging page; the monitors vary it.
-var finalVariants = []string{"VOID", "ERROR-Invalid", "SUPPORTED", "ROWS", "ROWS-last-continuous-page", "ERROR-ServerError"}
-var pageVariants = []string{"page-1-not-last", "page-7-not-last"}
+var finalVariants = []string{"VOID", "ERROR-Invalid", "SUPPORTED", "ROWS", "ROWS-last-continuous-page", "ERROR-ServerError",
+	"ROWS-last-continuous-page-with-paging-state", "ROWS-with-paging-state"}
+var pageVariants = []string{"page-1-not-last", "page-7-not-last", "page-1-not-last-with-paging-state", "page-3-not-last-with-paging-state"}
+
+const (
+	nFinalVariants = 8
+	nPageVariants  = 4
+)
 
 // opRec is an operation with its observed result (the form used in violation details / replays).
 type opRec struct {
@@ -128,20 +138,29 @@ func newFinalFrame(id int16, v uint8) *frame.Frame {
 		m = &message.RowsResult{Metadata: &message.RowsMetadata{}, Data: message.RowSet{}}
 	case 4:
 		m = &message.RowsResult{Metadata: &message.RowsMetadata{ContinuousPageNumber: 2, LastContinuousPage: true}, Data: message.RowSet{}}
-	default:
+	case 5:
 		m = &message.ServerError{ErrorMessage: "c09"}
+	case 6:
+		// a continuous-paging session ended by its page limit: LAST page, and a paging state to resume from
+		m = &message.RowsResult{Metadata: &message.RowsMetadata{ContinuousPageNumber: 3, LastContinuousPage: true, PagingState: []byte{0xca, 0xfe}},
+			Data: message.RowSet{}}
+	default:
+		// ordinary (non-continuous) paging: one response per request, more pages are fetched by new requests
+		m = &message.RowsResult{Metadata: &message.RowsMetadata{PagingState: []byte{0xca, 0xfe}}, Data: message.RowSet{}}
 	}
 	return frame.NewFrame(protoV, id, m)
 }
 
 // a NON-final page of a continuous-paging response (see isLastFrame in client/inflight.go)
 func newPageFrame(id int16, v uint8) *frame.Frame {
-	page := int32(1)
-	if int(v)%len(pageVariants) == 1 {
-		page = 7
+	md := &message.RowsMetadata{ContinuousPageNumber: 1, LastContinuousPage: false}
+	switch int(v) % len(pageVariants) {
+	case 1:
+		md.ContinuousPageNumber = 7
+	case 2:
+		md.PagingState = []byte{0xbe, 0xef}
+	case 3:
+		md.ContinuousPageNumber, md.PagingState = 3, []byte{0xbe, 0xef}
 	}
-	return frame.NewFrame(protoV, id, &message.RowsResult{
-		Metadata: &message.RowsMetadata{ContinuousPageNumber: page, LastContinuousPage: false},
-		Data:     message.RowSet{},
-	})
+	return frame.NewFrame(protoV, id, &message.RowsResult{Metadata: md, Data: message.RowSet{}})
 }
